@@ -67,7 +67,8 @@ class FakeBinaryTherm:
             T, g = _process_TG_arrays(T, g)                                                               # same input handling as the real backend
             if len(g) == 1 and np.ndim(gExtra) == 0:
                 g, T = g[0], T[0]
-        self.log.append(("getInterfacialComposition", float(np.atleast_1d(T)[0])))
+        Ta_ = np.atleast_1d(T)
+        self.log.append(("getInterfacialComposition", float(Ta_[0]) if Ta_.size else float("nan")))      # (empty arrays: no class with a critical radius)
         if g.ndim > 0 and g.size > 1:
             self.lookupT.append((precPhase, float(np.atleast_1d(T)[0]), int(g.size)))
         xa = self.xe(T, precPhase) + g / self._pp(precPhase, "K")
